@@ -15,6 +15,10 @@ CHECKS = {
             "For each accepted input the raw-saved normal form must reload and re-save byte-identically (diffed block by block through an independent header parser) and the default "
             "save must converge within two rounds. Inputs include a populated instance of each of the 304 registered block types in each of 14 versions, synthesised by answering the "
             "library's own reader. Held-on-observed-executions is the strongest claim execution can give for an all-inputs property; breadth comes from type x version enumeration.", "3/C01"),
+    "C02": ("exploration", "runtime monitor: hook-traced canonical dumps of three consecutive saves of one object + query battery before/after, under ASan/UBSan",
+            "The same NifFile object is saved three times per option set with the Sync/ref/string/block hooks installed; the canonical dumps of the three outputs (references as target "
+            "identity, string indices as text) must be equal and ~60 read-only queries must answer identically after each save and (logical part) before the first. Inputs: real, "
+            "float-mutated, API-built and one synthesised file per block type x version.", "3/C02"),
     "C05": ("exploration", "hook-based runtime monitor: set of NiRef/NiStringRef objects passing through Sync vs the owner's enumerators, over typed-synthesised instances of every block type x version",
             "All 304 registered block types x 14 versions are instantiated with populated fields by answering the reader through the typed read hook; every reference and "
             "string index that is actually serialised (both directions) must be reported by GetChildRefs/GetPtrs/GetStringRefs, and GetChildIndices must agree with GetChildRefs. "
